@@ -83,3 +83,13 @@ impl Header {
         Ok(())
     }
 }
+
+#[cfg(anydb_verif)]
+pub fn verif_header_from_bytes(bytes: &[u8]) -> Result<(u32, u32, u32, u64, u8)> {
+    HeaderInner::verif_from_bytes(bytes)
+}
+
+#[cfg(anydb_verif)]
+pub fn verif_header_to_bytes(hv: u32, vv: u32, cv: u32, stamp: u64, format: Format) -> Vec<u8> {
+    HeaderInner::verif_to_bytes(hv, vv, cv, stamp, format)
+}
